@@ -221,7 +221,7 @@ META = {
                    "multinomial draw): without replacement the result is proved equal to the prefix-sum-window count of the drawn indices, hence "
                    "sums to n and is bounded by the original; insufficient vectors are zeroed. Table.subsample (counts, with/without replacement, "
                    "by id, both axes) is run with the stub RNG: retained ids, per-vector sums along the requested axis, bounds, dropped empty "
-                   "vectors, by-id min(n,N) with values unchanged, one Generator seeded with exactly the given seed, input unchanged.",
+                   "vectors, by-id min(n,N) with values unchanged, one Generator seeded with exactly the given seed, input unchanged; the generator API (util.generate_subsamples): input unchanged after the first yield, the second yield checked like a direct call.",
     'encoded': {'biom/_subsample.pyx': ['subsample', '_subsample_without_replacement', '_subsample_with_replacement'],
                 'biom/table.py': ['subsample', '_get_sparse_data', 'filter', 'copy'], 'biom/_filter.pyx': ['_filter']},
     'bounds': {'quick': {'kernel': '2 vectors x <=3 entries, n<=3, counts unbounded', 'table': '2x2 count tables, <=1 explicit zero, n in 1..2 (by id 1..3)'},
